@@ -546,7 +546,7 @@ impl Check for C05 {
     }
     fn dedup_bits(&self, tier: Tier) -> u32 {
         if tier.is_thorough() {
-            29
+            30
         } else {
             26
         }
